@@ -68,6 +68,10 @@ type genCaseFn func(ctx *genCtx, ts *tape.Set, dir string) *genResult
 
 var genCases = map[string]genCaseFn{}
 
+// genDirected runs the committed reproducer of a known finding through the
+// property's own oracle.
+var genDirected = map[string]func(ctx *genCtx, in *DirectedInput, dir string) *genViolation{}
+
 func (r *genResult) probe(name string) {
 	if r.Probes == nil {
 		r.Probes = map[string]int{}
@@ -113,6 +117,28 @@ func runGenCheck(o checkOpts, level string, quick, thorough genBudget, rule stri
 		}
 	}
 	transparencyCheck(ctx)
+	// listed findings: run each committed reproducer through the oracle
+	directedHits := map[string]int{}
+	if df := genDirected[o.id]; df != nil {
+		for _, k := range ctx.kfs {
+			if k.Property != o.id || k.Status != "known" || k.Input == nil {
+				continue
+			}
+			dir := filepath.Join(ctx.bins.scratch, "directed")
+			os.RemoveAll(dir)
+			os.MkdirAll(dir, 0o755)
+			v := df(ctx, k.Input, dir)
+			if v != nil {
+				if kk := ctx.known(v); kk != nil && kk.ID == k.ID {
+					directedHits[k.ID]++
+				} else {
+					harnessTrouble("the reproducer of known finding %s fails in another way than recorded: %s: %s", k.ID, v.Clause, v.Detail)
+				}
+			} else {
+				fmt.Fprintf(os.Stderr, "note: the reproducer of known finding %s no longer fails (fixed?)\n", k.ID)
+			}
+		}
+	}
 
 	results := make([]*genResult, b.cases)
 	var mu sync.Mutex
@@ -242,8 +268,9 @@ func runGenCheck(o checkOpts, level string, quick, thorough genBudget, rule stri
 		}
 	}
 	cov["known_findings_matched"] = knownHits
+	cov["known_findings_reproduced_by_directed_input"] = directedHits
 	if len(failing) == 0 {
-		printKnown(nil)
+		printKnown(directedHits)
 		ev.write()
 		fmt.Printf("%s: held on %d cases (%d goderive executions, %d distinct non-trivial) in %.1fs (+%.1fs build)\n", o.id, done, execs, len(distinct), simWall, ctx.bins.buildS)
 		return 0
@@ -282,7 +309,7 @@ func runGenCheck(o checkOpts, level string, quick, thorough genBudget, rule stri
 		fmt.Printf("VIOLATION property=%s replay=%s\n", o.id, path)
 		exit = 1
 	}
-	printKnown(nil)
+	printKnown(directedHits)
 	cov["known_findings_matched"] = knownHits
 	ev.write()
 	if exit == 0 {
